@@ -136,6 +136,9 @@ def transfers(path):
     for msg in path.messages:
         t = Transfer()
         t.wellformed = True
+        t.coins = None
+        while isinstance(msg, Adt) and msg.ty == 'CosmosMsg' and msg.variant in ('Bank', 'Stargate', 'Any') and len(msg.fields) == 1 and isinstance(msg.fields[0], Adt):
+            msg = msg.fields[0]            # spelled-out wrapping: same message
         if isinstance(msg, Adt) and msg.ty == 'BankMsg' and msg.variant == 'Send':
             t.kind = 'bank'
             t.to = msg.fields[0]
